@@ -66,6 +66,9 @@ func vtqDo(q *PriorityQueue, o vtqOp) int {
 	case "Remove":
 		q.RemoveExtrinsic(vtqExt(o.Tx))
 		return 0
+	case "PopT":
+		// the timer is one poll interval: it fires together with the first look at the queue
+		return vtqID(q.PopWithTimer(time.After(q.pollInterval)))
 	}
 	panic("unknown op " + o.Op)
 }
@@ -252,5 +255,43 @@ func TestVerifTxQueueConc(t *testing.T) {
 			res.Sample(all)
 		}
 	}
-	res.Behaviours = nhist
+	// timer histories: PopWithTimer on an empty queue with a timer of one poll interval, a Push arriving just before the
+	// timer and the first poll fire; then, the dust settled, the queue is read back (Len, Exists, Pop, Len).  Whatever
+	// PopWithTimer answered, the pushed transaction was either yielded by it or is still there.
+	ntimer := nhist / 4
+	for h := 0; h < ntimer; h++ {
+		q := NewPriorityQueue()
+		var ctr atomic.Int64
+		var mu sync.Mutex
+		var all []vtqEv
+		do := func(o vtqOp) {
+			mu.Lock()
+			id++
+			my := id
+			mu.Unlock()
+			s1 := ctr.Add(1)
+			r := vtqDo(q, o)
+			s2 := ctr.Add(1)
+			mu.Lock()
+			all = append(all, vtqEv{Seq: s1, Ev: "call", ID: my, Op: o.Op, Tx: o.Tx, Prio: o.Prio}, vtqEv{Seq: s2, Ev: "ret", ID: my, Res: r})
+			mu.Unlock()
+		}
+		lead := q.pollInterval - time.Duration(rng.Intn(1500))*time.Microsecond
+		var wg sync.WaitGroup
+		wg.Add(2)
+		go func() { defer wg.Done(); do(vtqOp{Op: "PopT"}) }()
+		go func() { defer wg.Done(); time.Sleep(lead); do(vtqOp{Op: "Push", Tx: 1, Prio: 1}) }()
+		wg.Wait()
+		time.Sleep(2 * q.pollInterval)
+		for _, o := range []vtqOp{{Op: "Len"}, {Op: "Exists", Tx: 1}, {Op: "Pop"}, {Op: "Len"}} {
+			do(o)
+		}
+		sort.Slice(all, func(i, j int) bool { return all[i].Seq < all[j].Seq })
+		enc.Encode(vtqEv{Ev: "reset"})
+		for _, e := range all {
+			enc.Encode(e)
+		}
+		res.Case("timer-history", fmt.Sprint(h))
+	}
+	res.Behaviours = nhist + ntimer
 }
